@@ -18,10 +18,11 @@ KIND = {"object": "OBJECT", "interface": "INTERFACE", "union": "UNION", "enum": 
 def tref_json(t):
     if t is None:
         return None
+    # a report that stops before the named type (ofType not selected) is a wrong report, not a harness failure
     if t["kind"] == "LIST":
-        return {"k": "list", "of": tref_json(t["ofType"])}
+        return {"k": "list", "of": tref_json(t["ofType"]) if "ofType" in t else {"k": "named", "n": "<type reference cut off>"}}
     if t["kind"] == "NON_NULL":
-        return {"k": "nn", "of": tref_json(t["ofType"])}
+        return {"k": "nn", "of": tref_json(t["ofType"]) if "ofType" in t else {"k": "named", "n": "<type reference cut off>"}}
     return {"k": "named", "n": t["name"]}
 
 
@@ -235,6 +236,26 @@ def unknown_type_probe(out):
             out.setdefault("intro/unknown-type/wrong-report", ["__type of an undefined name does not simply report null", {"query": q, "cfg": cfg, "data": repr(data), "errors": [str(e) for e in res.errors]}])
 
 
+def reachability_probe(out):
+    """Types only reachable through a directive argument / an input object field / an interface implementation are part of the schema and
+    must be listed by __schema.types even when the schema was built WITHOUT an explicit type list."""
+    from py_gql import graphql_blocking
+    from py_gql.schema import Argument, Directive, EnumType, Field, InputField, InputObjectType, Int, ObjectType, Schema
+    only = EnumType("OnlyHere", ["X", "Y"])
+    deep = InputObjectType("DirDeep", [InputField("o", only)])
+    din = InputObjectType("DirIn", [InputField("d", deep)])
+    argin = InputObjectType("ArgIn", [InputField("n", Int)])
+    schema = Schema(ObjectType("Query", [Field("a", Int, [Argument("i", argin)])]), directives=[Directive("cfg", ["FIELD"], [Argument("with", din)])])
+    res = graphql_blocking(schema, "{ __schema { types { name inputFields { name type { name } } } directives { name args { name type { name } } } } }")
+    if res.errors or not res.data:
+        out.setdefault("intro/reachability/query-fails", ["introspection of a code-built schema fails", {"errors": [str(e) for e in res.errors or []]}])
+        return
+    names = {t["name"] for t in res.data["__schema"]["types"]}
+    missing = sorted({"OnlyHere", "DirDeep", "DirIn", "ArgIn"} - names)
+    if missing:
+        out.setdefault("intro/reachability/types-missing/%s" % "+".join(missing), ["types referenced by the schema are not listed by __schema.types", {"missing": missing, "listed": sorted(n for n in names if not n.startswith("__"))}])
+
+
 def history_stage(chk, out):
     """introspect -> hide in place -> introspect again (possibleTypes / type lists must follow)."""
     from py_gql.schema.transforms import VisibilitySchemaTransform
@@ -298,6 +319,7 @@ def run(chk):
     out = {}
     disabled_probe(out)
     unknown_type_probe(out)
+    reachability_probe(out)
     chk.traces += history_stage(chk, out)
     for k, (what, wit) in out.items():
         chk.diverge(k, wit, what)
